@@ -376,4 +376,5 @@ def _sweep():
 
 def jobs(tier: str) -> list[Job]:
     return [Job('layout-sweep', 'enum', _sweep, exhaustive=True),
-            Job('random-layouts', 'hyp', lambda: _build(tier), 2500 if tier == 'quick' else 100000)]
+            Job('random-layouts', 'hyp', lambda: _build(tier), 2500 if tier == 'quick' else 100000),
+            Job('claim-pingpong', 'hyp', lambda: c04._build_pingpong(tier), 1500 if tier == 'quick' else 60000)]
